@@ -1,7 +1,7 @@
 /-
 C16 – encoding a Go value and decoding it back returns the same value.
 
-The theorems are about `Uniflow.Codec.{encode, decode, generic}` (Model/Codec.lean), the transcription of
+The theorems are about `Uniflow.Codec.{encode, decode, generic, canon}` (Model/Codec.lean), the transcription of
 `types.Marshal` / `types.Unmarshal` / `Value.Interface` **after** these repairs in the repository
 (each found by the harness oracle on the pinned tree, witnesses in corpus/C16/):
 
@@ -15,24 +15,24 @@ The theorems are about `Uniflow.Codec.{encode, decode, generic}` (Model/Codec.le
   pointer to interface                     `*any` was encoded as null
   named field holding null                 stayed in the source map and leaked into the inline map
   `[n]byte` through JSON                   base64 text could not be decoded into a byte array
+  omitempty on the encoded value           a value that is not the zero value but encodes like it (5 ns, pointer to nil pointer,
+                                           zero instant in another zone, data only in ignored fields) was written and then
+                                           dropped on the way back – the former known finding `omitempty-rounds-to-zero`
 
-What is proved, and what is not (see the individual comments):
+Proved: `roundtrip` (unrestricted), `roundtrip_struct`, `no_panic`, `roundtrip_closed` (`v' = canon v`),
+`spec_roundtrip`, `generic_reencodes`, `encode_is_document`, the number / base64 laws of the JSON path and
+`roundtrip_json_partial` (closed types without a struct in a statically typed position).
+Stated and **not proved**: `roundtrip_json_full` (structs and `any` through JSON – covered by the correspondence
+check, which sends every `js` line within the guards to the model, and by the oracle).
 
-* `C16.generic_reencodes`   the generic view (`Interface()`, what an `any` target receives) of **every** document
-                            re-encodes to exactly that document – any nesting, nulls anywhere.
-* `C16.encode_is_document`  every encoding of every Go value (structs with omitempty / inline / ignored fields included)
-                            is such a document (string keys in Range order, no error values).
-* `C16.roundtrip_partial`   full round trip for all types whose **static** type contains no struct (scalars of every width,
-                            `[]byte`, `[n]byte`, time, duration, uuid, pointers, slices, arrays, maps, `any` holding *anything*,
-                            structs included). Missing: a struct in a statically typed position (the field-by-field decoder
-                            `phase1` / `phase2`); that case is covered by the correspondence check and the oracle only.
-* `C16.roundtrip_full_false` the unrestricted statement is false on the fixed code too: the known finding
-                            `omitempty-rounds-to-zero` (known_findings.txt), proved from a concrete witness.
-* `C16.no_panic_partial`    on those round trips the model's panic outcome (short Binary into `[n]byte`) is unreachable;
-                            `C16.panic_site_real` shows the outcome exists.
-* `C16.roundtrip_closed_full`, `C16.roundtrip_json_full`, `C16.spec_roundtrip_full` are stated and **not proved**.
+All statements quantify over every well-formed type (`GoType.wf`) and every value of it (`hasType`), any nesting
+depth and size: scalars of every width, `[]byte`, `[n]byte`, time, duration, uuid, pointers (to pointers), slices,
+arrays, `map[string]T`, structs with named / omitempty / inline struct / inline map / ignored fields, and `any`
+holding a value of any well-formed type.
 -/
-import Uniflow.Proofs.Codec
+import Uniflow.Proofs.CodecCanon
+import Uniflow.Proofs.CodecSpec
+import Uniflow.Proofs.CodecJSON
 
 open Uniflow.Value Uniflow.Codec
 
@@ -41,19 +41,70 @@ def C16.roundtrip_full : Prop :=
   ∀ (t : GoType) (v : GoVal), HasType v t →
     ∃ v', decode t (encode t v) = .ok v' ∧ encode t v' = encode t v
 
-/-- **Known finding `omitempty-rounds-to-zero`.** The full statement is false: a 5 ns duration in an omitempty
-field is encoded as `{"d": 0}`, comes back as 0 and is then dropped. -/
-theorem C16.roundtrip_full_false : ¬ C16.roundtrip_full := by
-  intro h
-  obtain ⟨v', hd, he⟩ := h (.struct (.cons .omit [100] .dur .nil)) (.struct (.cons (.dur 5) .nil)) (by decide)
-  have hdec : decode (.struct (.cons .omit [100] .dur .nil)) (encode (.struct (.cons .omit [100] .dur .nil)) (.struct (.cons (.dur 5) .nil)))
-      = .ok (.struct (.cons (.dur 0) .nil)) := by
-    simp [encode, encodeFields, isZero, mapSet, decode, phase1, phase2, mapGet, mapFind, mapDel, decodeField, durMs,
-      runLeaves, leavesDur, Uniflow.Group.decode, Uniflow.Group.lookup, Uniflow.Group.loop, List.zipIdx, fromR, Res.bind, Res.map, durOfMs, wrapInt,
-      Width.bits]
-  rw [hdec] at hd
-  cases hd
-  simp [encode, encodeFields, isZero, mapSet, durMs] at he
+/-- **C16 round trip – unrestricted.** For every well-formed type and every value of it, decoding the encoding
+succeeds and the result encodes to the same document. (With the omitempty repair there is no exception left: the
+former hypothesis `omitStable` is gone.) -/
+theorem C16.roundtrip : C16.roundtrip_full :=
+  fun t v h => rt_all v t h.1 h.2
+
+/-- the statement with a struct in statically typed positions (kept under its own name: it was the gap of the
+first delivery) -/
+def C16.roundtrip_struct_full : Prop :=
+  ∀ (fs : Fields) (vs : GoVals), HasType (.struct vs) (.struct fs) →
+    ∃ ws, decode (.struct fs) (encode (.struct fs) (.struct vs)) = .ok (.struct ws) ∧
+      encode (.struct fs) (.struct ws) = encode (.struct fs) (.struct vs)
+
+/-- **Structs.** The field-by-field decoder (`phase1`: named, omitempty and ignored fields and inline structs on
+the shared source map; `phase2`: the inline map takes what is left) returns a struct that encodes to the same
+document. -/
+theorem C16.roundtrip_struct : C16.roundtrip_struct_full := by
+  intro fs vs h
+  have hfw : Fields.wf fs = true := by
+    have := h.1; simp only [GoType.wf, Bool.and_eq_true] at this; exact this.1.1
+  have htf : hasTypeF fs vs = true := by
+    have := h.2; simp only [hasType, Bool.and_eq_true] at this; exact this.1
+  obtain ⟨ws, hd, _, he⟩ := struct_rt fs vs h.1 h.2 (rt_allF vs fs hfw htf)
+  exact ⟨ws, hd, he⟩
+
+/-- the hypotheses are met by a struct with every kind of field: omitempty holding a sub-millisecond duration (the
+former known finding), an inline struct, an inline map with a null, an ignored field with data, a nil pointer -/
+theorem C16.roundtrip_struct_nonvacuous :
+    HasType
+      (.struct (.cons (.dur 5) (.cons (.struct (.cons (.str [120]) (.cons .ptrNil .nil)))
+        (.cons (.map (.cons [126] .anyNil (.cons [125] (.any (.slice .any) .sliceNil) .nil))) (.cons (.int 7) (.cons (.time 5 7) .nil))))))
+      (.struct (.cons .omit [100] .dur (.cons .inline [] (.struct (.cons .named [110] .str (.cons .omit [112] (.ptr (.ptr (.int .w8))) .nil)))
+        (.cons .inline [] (.map .any) (.cons .ignored [] (.int .w64) (.cons .named [116] .time .nil)))))) := by
+  decide
+
+/-- **No failure, no panic.** On every round trip the decoder returns a value: no error class and not the
+model's panic outcome. -/
+theorem C16.no_panic (t : GoType) (v : GoVal) (h : HasType v t) :
+    (∀ e, decode t (encode t v) ≠ .err e) ∧ decode t (encode t v) ≠ .panic := by
+  obtain ⟨v', hd, _⟩ := C16.roundtrip t v h
+  rw [hd]; exact ⟨by intro e; simp, by simp⟩
+
+/-- The panic outcome of the model is real (`reflect.Value.Convert` of a 1-byte slice to `[2]byte`): it is
+reachable by a hostile document, just never by a round trip. -/
+theorem C16.panic_site_real : decode (.barr 2) (.bin [1]) = .panic := by
+  simp [decode, runLeaves, leavesBarr, Uniflow.Group.decode, Uniflow.Group.lookup, Uniflow.Group.loop, List.zipIdx, fromR]
+
+/-- the statement for types without `any`: the decoded value is the normal form `canon` (Model/Codec.lean states
+the normalisations: nil ↦ empty slice / map / bytes, pointer chains ending in nil ↦ nil, time and duration at
+millisecond precision in UTC, ignored fields zeroed, omitempty fields that encode like the zero value zeroed) -/
+def C16.roundtrip_closed_full : Prop :=
+  ∀ (t : GoType) (v : GoVal), HasType v t → closed t = true → decode t (encode t v) = .ok (canon t v)
+
+/-- **C16 closed types.** -/
+theorem C16.roundtrip_closed : C16.roundtrip_closed_full :=
+  fun t v h hc => co v t hc h.1 h.2
+
+/-- `canon` changes nothing it does not have to: it is idempotent in the sense that the normal form encodes to the
+same document -/
+theorem C16.canon_encodes_same (t : GoType) (v : GoVal) (h : HasType v t) (hc : closed t = true) :
+    encode t (canon t v) = encode t v := by
+  obtain ⟨v', hd, he⟩ := C16.roundtrip t v h
+  rw [C16.roundtrip_closed t v h hc] at hd
+  cases hd; exact he
 
 /-- **C16 (open positions).** Decoding any document into an open (`any`) target yields its generic view, and
 that view encodes back to exactly the document – for every document the encoders can produce (`genDoc`: no error
@@ -65,75 +116,78 @@ theorem C16.generic_reencodes (x : Val) (h : genDoc x = true) :
 /-- Every encoding of every Go value – whatever its type, struct tags included – is such a document. -/
 theorem C16.encode_is_document (t : GoType) (v : GoVal) : genDoc (encode t v) = true := gen_enc v t
 
-/-- **C16 round trip, partial.** For every type without a struct in a statically typed position and every value
-of it: decoding the encoding succeeds and the result encodes to the same document. No size or depth bound; `any`
-positions may hold values of any well-formed type (structs included).
-Missing for the full statement: static struct types (and then the hypothesis excluding the known finding). -/
-theorem C16.roundtrip_partial (t : GoType) (v : GoVal) (h : HasType v t) (hs : noStruct t = true) :
+/-- the first delivery's theorem (types without a struct in a statically typed position), now a corollary -/
+theorem C16.roundtrip_partial (t : GoType) (v : GoVal) (h : HasType v t) (_hs : noStruct t = true) :
     ∃ v', decode t (encode t v) = .ok v' ∧ encode t v' = encode t v :=
-  rt_plain v t hs h.2
+  C16.roundtrip t v h
 
-/-- the hypotheses of `roundtrip_partial` are met by a non-trivial value: a map of lists with nulls, an empty
-list, a list of uint16, a nil pointer and a struct with an omitted and an inline field inside `any`. -/
-theorem C16.roundtrip_partial_nonvacuous :
-    let t : GoType := .map (.slice .any)
-    let v : GoVal := .map (.cons [97] (.slice (.cons .anyNil (.cons (.any (.slice (.uint .w16)) (.slice (.cons (.uint 7) .nil)))
-      (.cons (.any (.slice .str) (.slice .nil)) (.cons (.any (.ptr (.int .w32)) .ptrNil)
-      (.cons (.any (.struct (.cons .omit [111] .f64 (.cons .inline [] (.map .any) (.cons .named [110] .time .nil))))
-        (.struct (.cons (.f64 0) (.cons (.map (.cons [126] .anyNil .nil)) (.cons (.time 5 7) .nil))))) .nil)))))) .nil)
-    HasType v t ∧ noStruct t = true := by
-  decide
 
-/-- On those round trips no decode panics. -/
-theorem C16.no_panic_partial (t : GoType) (v : GoVal) (h : HasType v t) (hs : noStruct t = true) :
-    ∀ e, decode t (encode t v) ≠ .err e ∧ (decode t (encode t v) = .panic → False) := by
-  obtain ⟨v', hd, _⟩ := C16.roundtrip_partial t v h hs
-  intro e; rw [hd]; exact ⟨by simp, by intro h; cases h⟩
+/-! ## Node specs: typed → `spec.Unstructured` → typed -/
 
-/-- The panic outcome of the model is real (`reflect.Value.Convert` of a 1-byte slice to `[2]byte`): it is
-reachable by a hostile document, just never by a round trip. -/
-theorem C16.panic_site_real : decode (.barr 2) (.bin [1]) = .panic := by
-  simp [decode, runLeaves, leavesBarr, Uniflow.Group.decode, Uniflow.Group.lookup, Uniflow.Group.loop, List.zipIdx, fromR]
-
-/-! ## Stated, not proved -/
-
-mutual
-  /-- no omitempty field (at any depth, dynamic values included) holds a value that is not the zero value but comes
-  back as the zero value – the negation of the known finding's class predicate -/
-  def omitStable : GoType → GoVal → Bool
-    | .ptr t, .ptr v => omitStable t v
-    | .slice t, .slice xs => omitStableL t xs
-    | .arr _ t, .arr xs => omitStableL t xs
-    | .map t, .map kvs => omitStableKV t kvs
-    | .struct fs, .struct vs => omitStableF fs vs
-    | .any, .any t v => omitStable t v
-    | _, _ => true
-  def omitStableL (t : GoType) : GoVals → Bool
-    | .nil => true
-    | .cons v vs => omitStable t v && omitStableL t vs
-  def omitStableKV (t : GoType) : GoKVs → Bool
-    | .nil => true
-    | .cons _ v kvs => omitStable t v && omitStableKV t kvs
-  def omitStableF : Fields → GoVals → Bool
-    | .cons .omit _ t rest, .cons v vs =>
-      (isZero v || (match decode t (encode t v) with | .ok v' => !isZero v' | _ => true))
-        && omitStable t v && omitStableF rest vs
-    | .cons _ _ t rest, .cons v vs => omitStable t v && omitStableF rest vs
-    | _, _ => true
-end
-
-/-- the round trip for every type of the universe, outside the known finding (not proved for static structs) -/
-def C16.roundtrip_struct_full : Prop :=
-  ∀ (t : GoType) (v : GoVal), HasType v t → omitStable t v = true →
-    ∃ v', decode t (encode t v) = .ok v' ∧ encode t v' = encode t v
-
-/-- typed spec → generic document (`Unstructured` = the same meta inline + an inline `map[string]any`) → typed:
-the generic document encodes to the same thing (so every field is in it, the unknown ones in `Fields`) and the typed
-spec comes back (not proved) -/
+/-- `T` = a typed spec: the meta fields `mf` inline (as `spec.Meta` is embedded) followed by its own fields `rest`
+(which may include an inline map that keeps unknown fields). `U` = `spec.Unstructured`: the same meta inline and
+`Fields map[string]any` inline. `spec.As(typed, &Unstructured{})` is encode-as-`T`, decode-as-`U`;
+`scheme.Decode` is encode-as-`U`, decode-as-`T` (its id assignment and validation are not modelled). -/
 def C16.spec_roundtrip_full : Prop :=
-  ∀ (mf rest : Fields) (v : GoVal),
+  ∀ (mf rest : Fields) (mvs rvs : GoVals),
     let T : GoType := .struct (.cons .inline [] (.struct mf) rest)
     let U : GoType := .struct (.cons .inline [] (.struct mf) (.cons .inline [] (.map .any) .nil))
-    HasType v T → U.wf = true → omitStable T v = true →
-    ∃ u, decode U (encode T v) = .ok u ∧ encode U u = encode T v ∧
-      ∃ v', decode T (encode U u) = .ok v' ∧ encode T v' = encode T v
+    let v : GoVal := .struct (.cons (.struct mvs) rvs)
+    HasType v T →
+    ∃ mws kvs,
+      -- the generic document: meta decoded field by field, everything else in `Fields`
+      decode U (encode T v) = .ok (.struct (.cons (.struct mws) (.cons (.map kvs) .nil))) ∧
+      -- every entry of the typed document that is not a meta key is an entry of `Fields` (as a generic value that
+      -- encodes to exactly that entry), and nothing else is
+      (∀ k, lastKV .any kvs k = if k ∈ aliases mf then none else mapFind (encodeFields (.cons .inline [] (.struct mf) rest) (.cons (.struct mvs) rvs) .nil) k) ∧
+      -- the generic document encodes to the typed document …
+      encode U (.struct (.cons (.struct mws) (.cons (.map kvs) .nil))) = encode T v ∧
+      -- … so decoding it as the typed spec gives the typed spec back (unknown fields come back through the typed
+      -- spec's own inline map, if it has one)
+      ∃ v', decode T (encode U (.struct (.cons (.struct mws) (.cons (.map kvs) .nil)))) = .ok v' ∧ encode T v' = encode T v
+
+/-- **C16 specs.** -/
+theorem C16.spec_roundtrip : C16.spec_roundtrip_full := by
+  intro mf rest mvs rvs T U v h
+  obtain ⟨mws, kvs, hd, _, hk, he⟩ := spec_to_unstructured mf rest mvs rvs h.1 h.2
+  obtain ⟨v', hd', he'⟩ := C16.roundtrip T v h
+  exact ⟨mws, kvs, hd, hk, he, v', by rw [he]; exact hd', he'⟩
+
+/-! ## The JSON path -/
+
+/-- an integer up to ±2^53 survives the JSON number (float64) exactly -/
+theorem C16.json_number (v : Int) (h1 : -9007199254740992 ≤ v) (h2 : v ≤ 9007199254740992) :
+    ∃ b, f64OfInt v = some b ∧ intOfF64 b = some v ∧ finite64 b = true := f64_int_rt v h1 h2
+
+/-- `[]byte` survives its JSON form (base64 text) -/
+theorem C16.json_base64 (bs : Bytes) (h : bytesOk bs = true) : b64dec (b64enc bs) = some bs :=
+  b64_rt bs (bytesOk_lt h)
+
+/-- the full JSON statement: under the guards (`jsonOK`: integers and millisecond counts within ±2^53, finite
+float64, no float32, valid UTF-8) the document has a JSON form, decoding that form succeeds, and the decoded value
+carries the same JSON document; for closed types it is the normal form. **Not proved** for structs in statically
+typed positions and for `any` (see `roundtrip_json_partial`). -/
+def C16.roundtrip_json_full : Prop :=
+  ∀ (t : GoType) (v : GoVal), HasType v t → jsonOK t v = true →
+    ∃ j, jsonForm (encode t v) = some j ∧
+      ∃ v', decode t j = .ok v' ∧ jsonForm (encode t v') = some j ∧ (closed t = true → v' = canon t v)
+
+/-- **C16 through JSON, partial.** For closed types without a struct in a statically typed position (every
+integer width, float64, string, bool, `[]byte`, `[n]byte`, time, duration, uuid, pointers, slices, arrays, maps):
+the JSON form exists, decodes to exactly the normal form `canon t v`, and that value carries the same JSON document.
+Missing for the full statement: struct types (the `phase1` / `phase2` lemmas are stated for the direct document) and
+`any`. -/
+theorem C16.roundtrip_json_partial (t : GoType) (v : GoVal) (h : HasType v t) (g : jsonOK t v = true)
+    (hc : closed t = true) (hs : noStruct t = true) :
+    ∃ j, jsonForm (encode t v) = some j ∧ decode t j = .ok (canon t v) ∧
+      jsonForm (encode t (canon t v)) = some j := by
+  obtain ⟨j, hj, hd⟩ := cj v t hc hs h.1 h.2 g
+  exact ⟨j, hj, hd, by rw [C16.canon_encodes_same t v h hc]; exact hj⟩
+
+/-- the guards are satisfiable by a non-trivial value: a map of lists of pointers to 2^53, −2^53, a byte array -/
+theorem C16.roundtrip_json_partial_nonvacuous :
+    let t : GoType := .map (.slice (.ptr (.int .w64)))
+    let v : GoVal := .map (.cons [97] (.slice (.cons (.ptr (.int 9007199254740992)) (.cons .ptrNil
+      (.cons (.ptr (.int (-9007199254740992))) .nil)))) .nil)
+    HasType v t ∧ jsonOK t v = true ∧ closed t = true ∧ noStruct t = true := by
+  decide
